@@ -2,6 +2,8 @@ SPECIFICATION Spec
 CONSTANT MaxN = 5
 CONSTANT MinN = 1
 CONSTANT Places = {"Cpu", "Npu", "MemN"}
+CONSTANT MultiOut = FALSE
+CONSTANT SinkSees = "all"
 CONSTANT AllowExtra = FALSE
 INVARIANT TypeOK
 INVARIANT TopoOrder
